@@ -139,3 +139,26 @@ Theorem C06_source_impl_bounds :
   bounds_of "ExactSizeIterator for GenericArrayIter<T,N>" = Some ["N:ArrayLength"] /\
   bounds_of "FusedIterator for GenericArrayIter<T,N>" = Some ["N:ArrayLength"].
 Proof. repeat split. Qed.
+
+(* ---- T3: fold, rfold and clone of GenericArrayIter as they stand in src/iter.rs (regenerated: coq/gen/GenPipe.v
+        gen_iter_fold / gen_iter_rfold / gen_iter_clone, interpreted by Pipe.v).  [a] is the window of elements still
+        to come.  fold visits exactly these, once each, front to back, and hands each of them to the caller's function;
+        rfold visits them back to front; a clone holds the images of exactly these elements under Clone::clone, in
+        order, and nothing of the original is moved or dropped -- for every length, every element type. ---- *)
+From GA Require Import Builder Functional FunctionalProofs Pipe PipeTie.
+From GAGen Require Import GenPipe.
+
+Theorem C06_source_iter_fold : forall f g a so nd init,
+  let '(o, m, t, c) := run_fold [a] so f g None (pipe_of gen_iter_fold nd) (List.length a) init in
+  o = FoldOk (fold_acc g 0 init a) /\ List.concat c = a /\ (m ++ t)%list = map EMove a.
+Proof. exact src_iter_fold_in_order. Qed.
+
+Theorem C06_source_iter_rfold : forall f g a so nd init,
+  let '(o, m, t, c) := run_fold [a] so f g None (pipe_of gen_iter_rfold nd) (List.length a) init in
+  o = FoldOk (fold_acc g 0 init (rev a)) /\ List.concat c = rev a.
+Proof. exact src_iter_rfold_in_order. Qed.
+
+Theorem C06_source_iter_clone : forall f g nd a,
+  run_for_each [a] false f g None (pipe_of gen_iter_clone nd) (List.length a) =
+  (Ok (clones_of (fun j x => f j [x]) 0 a), [], [], [], map (fun x => [x]) a).
+Proof. exact src_iter_clone_all. Qed.
